@@ -59,8 +59,9 @@ PROPS = {
         assumptions=["TokenType::tabs(n)/spaces(n) print n tabs/spaces (class A)", "indent arithmetic does not overflow usize (nesting depth x indent_width), stated as a precondition"]),
     "C11": dict(units=["ctx", "tok", "args"], bounded=[dict(kind="lib", witnesses="C11_WITNESSES"), dict(kind="corpus", kinds=["callparens"], configs="C11")],
         explanation="get_quote_to_use equals the quote-choice table of the property; should_omit_string/table_parens equal the call_parentheses table; "
-                    "create_function_definition/call_trivia produce one space exactly for the option values that name the case.",
-        not_decided=["format_method_call and the function-definition formatters (space after the name in definitions) are stubs: only the constructor create_function_definition_trivia is proved",
+                    "create_function_definition/call_trivia produce one space exactly for the option values that name the case. format_call and format_method_call (real text): the arguments get the form format_function_args decides "
+                    "and are separated from the name by that token (behind comments that end the line: indented on their own line; behind a line comment on a method name: on a new line).",
+        not_decided=["the function-definition formatters (space after the name in definitions) are outside the units: only the constructor create_function_definition_trivia is proved",
                      "format_function_call's computation of the `obscure` flag for each suffix (next suffix is an index or method call): not under contract"],
         assumptions=[]),
     "C13": dict(units=["cli_io", "diff"], bounded=[dict(kind="cli", scenario="check_never_writes")],
@@ -106,7 +107,7 @@ PROPS = {
                      "byte-identical output across carriers is implied only through `same Config`; equality of the library's output for equal Configs is determinism of format_code, not proved"],
         assumptions=["ec4rs Properties::get::<T>() returns the parsed value of key T (wrappers); the string parsers generated by property_choice! are macro output (assumed)"],
         technique="Kani complete enumeration of finite enum domains + Verus contracts on mechanically extracted real functions"),
-    "C07": dict(bounded=[dict(kind="lib", witnesses="C07_BOUNDED"), dict(kind="corpus", kinds=["panic", "error", "timeout"]), dict(kind="inject", kinds=["panic", "error"])], units=["expr", "block", "ctx", "lib", "tok", "cli_io", "diff", "config", "econf", "sort", "args", "table", "stmt", "luau", "collapse"], kani=["shape"],
+    "C07": dict(bounded=[dict(kind="lib", witnesses="C07_BOUNDED"), dict(kind="corpus", kinds=["panic", "error", "timeout"]), dict(kind="inject", kinds=["panic", "error"])], units=["expr", "block", "ctx", "lib", "tok", "cli_io", "diff", "config", "econf", "sort", "args", "table", "stmt", "luau", "collapse", "bodies"], kani=["shape"],
         explanation="Totality of the library call, decided per function under contract: inside every function whose real text is verified, each panic!/unreachable!/assert!/expect/unwrap, "
                     "each usize subtraction/addition/multiplication and every recursion or loop (decreases) is an obligation Verus discharges for all inputs (one `.total` obligation per function and "
                     "feature set). format_code returns Err(ParseError) iff the input does not parse and never Ok otherwise; format_ast without verification always returns Ok. "
@@ -125,19 +126,25 @@ PROPS = {
                      "slice::sort_by_key is assumed to be a stable sort by the name (class B wrapper); the leading-trivia swap (comments of the group's first line stay on top) is a hole: comment preservation inside a sorted group is only exercised by the bounded witnesses",
                      "get_expression_kind (what counts as a require / GetService call): string matching, assumed"],
         assumptions=["parsed ASTs carry positions; local names are identifier tokens (parser)"]),
-    "C02": dict(units=["expr", "block", "lib", "tok", "args", "table", "stmt", "luau", "collapse"], bounded=[dict(kind="lib", witnesses="C02_BOUNDED"), dict(kind="corpus", kinds=["tree", "literals"]), dict(kind="inject", kinds=["tree", "literals"])],
+    "C02": dict(units=["expr", "block", "lib", "tok", "args", "table", "stmt", "luau", "collapse", "bodies"], bounded=[dict(kind="lib", witnesses="C02_BOUNDED"), dict(kind="corpus", kinds=["tree", "literals"]), dict(kind="inject", kinds=["tree", "literals"])],
         explanation="expression spine: same obligations as C05 (operator tree, leaves, operators) plus line safety (code printed behind a line comment silently disappears: D25, D32, D33); "
                     "statements of a block are the input's, in order (format_block invariant); token layer: names/symbols/numbers/strings per fmt_tt; call sugar keeps the single argument (args_sem); "
                     "table fields keep kind, key and value trees (format_field, format_field_expression_value); a condition loses at most its top-level parentheses; "
-                    "Luau: keep_parentheses keeps the parentheses of a single type wherever the grammar reads the type differently without them (parens_needed, written from the Luau grammar). "
+                    "Luau: keep_parentheses keeps the parentheses of a single type wherever the grammar reads the type differently without them (parens_needed, written from the Luau grammar); "
+                    "format_type_info_internal (real text of the Tuple, Union, Intersection, Optional, Variadic arms, real loops) drops the parentheses of `(T)` only where keep_parentheses says no for the context it was given, and formats "
+                    "every member of a union / intersection, the base of an optional and the type of a variadic for the context that carries the matching mark; hang_type_info (real text, both loops) does the same for the members it hangs. "
                     "collapse_simple_statement (unit collapse, real text): is_block_simple / is_if_guard / should_collapse_function_body say yes only for a body of exactly one statement of a kind the one-line path prints "
-                    "(no elseif / else), and format_if — collapsed or not — returns an `if` with the same number of statements in every block and the same branches. "
+                    "(no elseif / else), and format_if — collapsed or not — returns an `if` with the same number of statements in every block, the same branches and the same condition. "
+                    "Unit bodies (real text): format_do_block / format_while_block / format_repeat_block / format_else_if / format_numeric_for / format_generic_for return a node whose body has the statement census "
+                    "format_block returns for the input's body and whose condition / bounds / names / expression list are the input's (modulo redundant parentheses and the top-level pair of a condition), on every layout path. "
                     "Bounded (labelled): Luau type witnesses, collapse witnesses, call-behind-comment witnesses, corpus sweep (tree and literal values).",
-        not_decided=["statement formatters other than format_block / format_stmt dispatch / format_if (while, for, function, assignment bodies; format_else_if; the one-line branch of format_function_body): assumed to rebuild the same node kind (class C stubs)",
-                     "the context flags handed to keep_parentheses (format_type_info_internal) are not under contract"],
+        not_decided=["function declarations (names, parameters, Luau annotations; the body's statement census is covered by format_function_body), assignments, returns, Luau type declarations: not under contract; format_stmt's dispatch assumes they rebuild the same statement (class C stubs)",
+                     "the census / condition contracts of the unit bodies are stated per node; that format_stmt's stub contract `same statement` follows from them is not proved (the two vocabularies are not connected)",
+                     "Luau types: the arms of format_type_info_internal that build arrays, callbacks, generics, tables, typeof and module types are behind one wrapper without contract (the types nested in them are formatted by calls the unit does not follow); "
+                     "the list formatter of the types inside parentheses takes a closure that recurses: its result is assumed to have as many types as its input"],
         assumptions=["leaf formatters return the same leaf (var_id, call_id, table_id, ... postconditions on stubs)"]),
-    "C01": dict(units=["expr", "block", "lib", "tok", "table"], bounded=[dict(kind="lib", witnesses="C01_BOUNDED"), dict(kind="corpus", kinds=["parse"]), dict(kind="inject", kinds=["parse"])],
-        explanation="necessary conditions, each a mechanism the property names: (1) `- -x` guard on both layout paths, right-open expressions never freed under an operator (C05 contract); "
+    "C01": dict(units=["expr", "block", "lib", "tok", "table", "collapse"], bounded=[dict(kind="lib", witnesses="C01_BOUNDED"), dict(kind="corpus", kinds=["parse"]), dict(kind="inject", kinds=["parse"])],
+        explanation="(unit collapse: a function body / if guard is only written on one line — with `end` behind its statement — when no comment is found in it.) necessary conditions, each a mechanism the property names: (1) `- -x` guard on both layout paths, right-open expressions never freed under an operator (C05 contract); "
                     "(2) a long-bracket string is separated from `[` (format_index, format_field, is_brackets_string); (3) the statement separator is kept where the next statement starts with `(` "
                     "(format_block); (4) LINE SAFETY inside expressions (prelude/lines.rs): esafe(r) is a postcondition of format_expression, format_expression_internal, hang_binop_expression, "
                     "format_hanging_expression_, hang_expression, parenthesise, keep_double_minus_apart, move_operand_below_comment — at every operator, parenthesis and type assertion of the "
@@ -292,6 +299,10 @@ TABLE_COMMENT_WITNESSES = [
 COLLAPSE_SRC = ('if ready then start() notify(queue) end\nif not item.enabled then -- skip disabled entries\n return nil end\nif a then return end\nif b then x = 1 end\n'
                 'local function f() return 1 end\nlocal function g() print(1) print(2) end\nfunction h()\n\t-- stylua: ignore\n\tfoo(  )\nend\nlocal k = function() -- c\n return 2 end\nif c then goto done end\n::done::\n')
 COLLAPSE_WITNESSES = [w(COLLAPSE_SRC, oracle=o, syntax="lua52", collapse_simple_statement=c, sweep=(20, 120)) for c in ("Always", "ConditionalOnly", "FunctionOnly", "Never") for o in ("tree", "comments")]
+LOOP_SRC = ('while (a and b) or (c) do x = x + 1 f(x) end\nrepeat local y = g() y:h() until (y == nil) or ((done))\nfor i = (1), (n) * 2, -(step) do t[i] = i end\n'
+            'for k, v in pairs(t), (nil) do print(k, v) end\ndo local z = 1 z = z + 1 return z end\n'
+            'if (a) then p() q() elseif ((b)) and c then r() elseif (f()) then s() s() else u() return end\n')
+LOOP_WITNESSES = [w(LOOP_SRC, oracle="tree", sweep=(10, 120)), w(LOOP_SRC, oracle="tree", collapse_simple_statement="Always", indent_type="Spaces", sweep=(10, 120))]
 COND_COMMENT_WITNESSES = [w('while ( --[[a]] x --[[b]] ) --[[c]] do end\nif --[[d]] (y) then end\nrepeat until ( --[[e]] z )\nwhile ( -- f\n w) do end\nif (a) then end\n', oracle="comments", sweep=(20, 120))]
 SEMI_COMMENT_WITNESSES = [w('local a = b; -- c\n(f or g)()\nlocal d = e; --[[ blk ]]\n(h)()\nx = 1; -- gone\nreturn x; -- last\n', oracle="comments")]
 a26, b30, c26 = "a" * 26, "b" * 30, "c" * 26
@@ -331,6 +342,8 @@ OPEN_C03_FINDINGS = [w('local a = { c -- k\n = bar() }\n', oracle="comments"),  
 WITNESSES = {
     "C03.condition": COND_COMMENT_WITNESSES, "C02.condition": COND_COMMENT_WITNESSES,
     "C02.stmt": COLLAPSE_WITNESSES, "C02.if_guard": COLLAPSE_WITNESSES, "C02.simple_block": COLLAPSE_WITNESSES, "C02.collapsed_function": COLLAPSE_WITNESSES, "C02.format_if": COLLAPSE_WITNESSES + COND_COMMENT_WITNESSES,
+    "C02.do_keeps": LOOP_WITNESSES, "C02.while_keeps": LOOP_WITNESSES, "C02.repeat_keeps": LOOP_WITNESSES, "C02.elseif_keeps": LOOP_WITNESSES, "C02.numeric_for": LOOP_WITNESSES, "C02.generic_for": LOOP_WITNESSES,
+    "C02.format_if_keeps_condition": LOOP_WITNESSES + COND_COMMENT_WITNESSES,
     "C02.empty_block": COLLAPSE_WITNESSES, "C03.if_guard": COLLAPSE_WITNESSES, "C03.collapsed_function": COLLAPSE_WITNESSES, "C01.semicolon": COLLAPSE_WITNESSES[:2] + SEMI_COMMENT_WITNESSES, "C08.block": SEMI_COMMENT_WITNESSES,
     "C02.": TYPE_WITNESSES, "C03.": TABLE_COMMENT_WITNESSES, "C03.field_value": FIELD_COMMENT_WITNESSES, "C02.field_value": FIELD_COMMENT_WITNESSES,
     "C01.line_comment": C04_WITNESSES + C10_WITNESSES[:4], "C04.": C04_WITNESSES, "C03.token_text": C04_WITNESSES + C10_WITNESSES, "C11.quote_choice": C04_WITNESSES[:4], "C10.": C10_WITNESSES,
